@@ -208,6 +208,9 @@ def evaluate(H, case, victim, r, info, fault, before_objs):
         if len(new) > 1:
             H.flag('unexpected-snapshots', f'after {fault}: new snapshot objects {sorted(new)}', **sig)
             return
+        if r is not None and r.ok and not new:
+            H.flag('snapshot-acknowledged-but-missing', f'after {fault}: snapshot reported success but no new snapshot is listed', **sig)
+            return
         for loc in new:
             name, _ = ref_format.RefRepo.parse_snapshot_location(loc)
             sm = history.SnapModel(name, loc, u, info['files'], victim['at'], None)
@@ -349,7 +352,10 @@ def run_case(case):
                     local.next_plan = fsseam.FS(faults={})
                     kind = base_syscalls[fault[1]][0] if fault[1] < len(base_syscalls) else 'write'
                     skip = sum(1 for k, _ in base_syscalls[:fault[1]] if k == kind)
-                    local.next_plan.fail_next(kind, 'EIO' if fault[2] == 'before' else 'ENOSPC', count=10**9, skip=skip)
+                    # which error the file system reports is its choice: I/O error, permissions (read-only bind mount, SMB), quota ...
+                    err = substream(case['sample_seed'], f'errno{fault[1]}').choice(['EIO', 'EIO', 'EACCES', 'EPERM', 'EROFS', 'EDQUOT']) if fault[2] == 'before' else 'ENOSPC'
+                    H.probe('fs_errno_' + err)
+                    local.next_plan.fail_next(kind, err, count=10**9, skip=skip)
             elif fault[0] == 'unavail':
                 prof = H.W.profile(unavailable=[fault[1]])
             elif fault[0] == 'crash':
